@@ -206,23 +206,34 @@ def judge(sc, w):
         mode = d["slot"]["mode"]
         sigs = [(s, t) for s, t in sig_of.get(pid, []) if s in (SIGABRT, SIGKILL)]
         done = d["times"][:d["i"]]
-        if mode == "healthy":
-            if sigs:
-                s, t = sigs[0]
-                last = max([x for x in done if x <= t] + [d["born"]])
-                age = t - last
-                key = None
-                if sc["cls"] != "sync" and sc["timeout"] == 1 and age > T:
-                    key = KEY_D19
-                fails.append(("healthy %s worker %d (iterations within the timeout, latency <= %d ticks) was sent signal %d at t=%d: "
-                              "heartbeat age %d ticks, timeout %d ticks" % (sc["cls"], pid, SMALL_LAT, s, t, age, T), key))
-        else:
-            h = done[-1] if done else d["born"]
+        # the instant from which the worker is silent: never for a healthy one
+        h = None if mode == "healthy" else (d["times"][-1] if d["times"] else d["born"])
+        # signals sent while the worker was still going to notify again: it was healthy then
+        early = [(sg, t) for sg, t in sigs if h is None or t < h]
+        if early:
+            sg, t = early[0]
+            last = max([x for x in d["times"] if x <= t] + [d["born"]])
+            age = t - last
+            key = None
+            if sc["cls"] != "sync" and sc["timeout"] == 1 and age > T:
+                key = KEY_D19
+            fails.append(("healthy %s worker %d (iterations within the timeout, latency <= %d ticks) was sent signal %d at t=%d: "
+                          "heartbeat age %d ticks, timeout %d ticks" % (sc["cls"], pid, SMALL_LAT, sg, t, age, T), key))
+        if h is not None:
+            gone = deaths.get(pid)
+            if gone is not None and gone < h:
+                continue                                  # killed (wrongly, see above) before it could hang
+            sigs = [(sg, t) for sg, t in sigs if t >= h]
             if h + T + 3 * P > end:
                 continue                                  # the run is too short to judge this one
-            ab = [t for s, t in sigs if s == SIGABRT]
-            ki = [t for s, t in sigs if s == SIGKILL]
+            ab = [t for sg, t in sigs if sg == SIGABRT]
+            ki = [t for sg, t in sigs if sg == SIGKILL]
             obeys = d["slot"].get("obeys", False)
+            if early and any(sg == SIGABRT for sg, _ in early):
+                # already marked aborted by a premature SIGABRT it survived: the next stale scan may send SIGKILL directly
+                if not ab and not ki:
+                    fails.append(("hung worker %d (silent since %d, timeout %d ticks) was not signalled again until t=%d" % (pid, h, T, end), None))
+                continue
             if not ab:
                 fails.append(("hung worker %d (last notify at %d, timeout %d ticks) was never sent SIGABRT until t=%d" % (pid, h, T, end), None))
                 continue
@@ -230,7 +241,6 @@ def judge(sc, w):
                 fails.append(("hung worker %d: SIGABRT only at %d, later than last notify %d + timeout %d + loop period %d" % (pid, ab[0], h, T, P), None))
             if ab[0] - h <= T:
                 fails.append(("worker %d was sent SIGABRT at %d although its heartbeat (at %d) was not older than the timeout %d" % (pid, ab[0], h, T), None))
-            gone = deaths.get(pid)
             if gone is None:
                 fails.append(("hung worker %d still alive at t=%d (SIGABRT at %d, SIGKILL %r)" % (pid, end, ab[0], ki), None))
                 continue
